@@ -250,10 +250,11 @@ def SubItem.render : SubItem → List Char
   | .comment b => '<' :: '!' :: '-' :: '-' :: (b ++ ['-', '-', '>'])
   | .pi b => '<' :: '?' :: (b ++ ['?', '>'])
   | .peRef n => '%' :: (n ++ [';'])
-  | .entity e => "<!ENTITY".toList ++ e.render
-  | .element b => "<!ELEMENT".toList ++ renderChunks b ++ ['>']
-  | .attlist b => "<!ATTLIST".toList ++ renderChunks b ++ ['>']
-  | .notation b => "<!NOTATION".toList ++ renderChunks b ++ ['>']
+  | .entity e => '<' :: '!' :: 'E' :: 'N' :: 'T' :: 'I' :: 'T' :: 'Y' :: e.render
+  | .element b => '<' :: '!' :: 'E' :: 'L' :: 'E' :: 'M' :: 'E' :: 'N' :: 'T' :: (renderChunks b ++ ['>'])
+  | .attlist b => '<' :: '!' :: 'A' :: 'T' :: 'T' :: 'L' :: 'I' :: 'S' :: 'T' :: (renderChunks b ++ ['>'])
+  | .notation b =>
+    '<' :: '!' :: 'N' :: 'O' :: 'T' :: 'A' :: 'T' :: 'I' :: 'O' :: 'N' :: (renderChunks b ++ ['>'])
 
 /-- `intSubset`: items, each preceded by optional white space -/
 def renderSubset : List (List Char × SubItem) → List Char
@@ -294,15 +295,26 @@ structure DoctypeG where
   w2 : List Char                              -- S?
   subset : Option (List (List Char × SubItem) × List Char × List Char)   -- '[' items S? ']' S?
 
+def DoctypeG.renderExt (d : DoctypeG) : List Char :=
+  match d.ext with | none => [] | some (w, x) => w ++ x.render
+
+def DoctypeG.renderSub (d : DoctypeG) : List Char :=
+  match d.subset with
+  | none => []
+  | some (items, wi, w3) => '[' :: (renderSubset items ++ (wi ++ ']' :: w3))
+
 def DoctypeG.render (d : DoctypeG) : List Char :=
-  d.w1 ++ d.name ++ (match d.ext with | none => [] | some (w, x) => w ++ x.render) ++ d.w2 ++
-  (match d.subset with | none => [] | some (items, wi, w3) => '[' :: (renderSubset items ++ wi ++ ']' :: w3)) ++
-  ['>']
+  d.w1 ++ (d.name ++ (d.renderExt ++ (d.w2 ++ (d.renderSub ++ ['>']))))
 
 def DoctypeG.wf (d : DoctypeG) : Bool :=
   wsReq d.w1 && nameOk d.name && wsOk d.w2 &&
   (match d.ext with | none => true | some (w, x) => wsReq w && x.wf) &&
   (match d.subset with | none => true | some (items, wi, w3) => subsetWf items && wsOk wi && wsOk w3)
+
+/-- what the grammar says the DOCTYPE declaration carries: (has an external identifier, the
+declarations of its internal subset) -/
+def DoctypeG.value (d : DoctypeG) : Bool × List Decl :=
+  (d.ext.isSome, match d.subset with | none => [] | some (items, _, _) => subsetDecls true items)
 
 end PrologGrammar
 
